@@ -60,9 +60,24 @@ def _key_alpha():
             "default": "42", "defaults": []}
 
 
+class GetOnlyRegistry:
+    """All a datatype registry has to offer is get(name): this one offers
+    nothing else, and knows one name the stock registry does not."""
+
+    def __init__(self):
+        import ZConfig.datatypes
+        self._r = ZConfig.datatypes.Registry()
+
+    def get(self, name):
+        if name == "zcvonly.int":
+            return int
+        return self._r.get(name)
+
+
 class World:
     def __init__(self, rng, space):
         self.space = space
+        self.getonly = rng.random() < 0.15
         n_abs = rng.randint(1, 3)
         abstracts = ["abs%d" % (i + 1) for i in range(n_abs)]
         model = {"keytype": "basic-key", "datatype": None, "handler": None,
@@ -135,6 +150,11 @@ class World:
             for i, name in enumerate(names):
                 ctypes = packages.gen_component_types(rng, model,
                                                       "p%d" % i)
+                if self.getonly:
+                    for t_ in ctypes:
+                        for c_ in t_["children"]:
+                            if c_["datatype"] == "integer":
+                                c_["datatype"] = "zcvonly.int"
                 imports = []
                 if cyc < 0.15 and ncomp == 2:
                     imports = [names[1 - i]]            # mutual
@@ -176,7 +196,13 @@ class World:
             model, abstract_import=(self.base, "abstract.xml")
             if self.base else None, head_xml=head)
         import ZConfig
-        self.schema = ZConfig.loadSchemaFile(io.StringIO(self.xml))
+        import ZConfig.loader
+        if self.getonly and not self.inline:
+            self.schema = ZConfig.loader.SchemaLoader(
+                GetOnlyRegistry()).loadFile(io.StringIO(self.xml))
+        else:
+            self.getonly = False
+            self.schema = ZConfig.loadSchemaFile(io.StringIO(self.xml))
 
     def closure(self, imported):
         """The packages whose components are in after importing these."""
@@ -561,6 +587,7 @@ def run_world(ctx, w, hook, rng):
             hook.phase = "schema"
             after = w.subtype_tables()
             case = {"xml": w.xml, "text": text, "load_index": li, "via": via,
+                    "getonly": w.getonly,
                     "components": [[n, ts] for n, ts in w.components],
                     "imports": dict(w.imports),
                     "schema_level": list(w.schema_level)
@@ -637,7 +664,7 @@ def run_world(ctx, w, hook, rng):
                                                          text),
                             mechanism=mech,
                             vsig="table|%s" % mech)
-    if for_validator is not None and rng.random() < 0.8:
+    if for_validator is not None and rng.random() < 0.8 and not w.getonly:
         validator_scenario(ctx, w, hook, for_validator)
 
 
@@ -731,7 +758,9 @@ def run_shard(ctx):
                 continue
             ctx.res.count("worlds")
             run_world(ctx, w, hook, rng)
-            if w.components and rng.random() < 0.2:
+            if w.getonly:
+                ctx.res.count("worlds_with_get_only_registry")
+            if w.components and rng.random() < 0.2 and not w.getonly:
                 hook.phase = "churn"
                 churn(ctx, w, rng)
                 hook.phase = "schema"
@@ -791,7 +820,12 @@ def replay(ctx, case):
                 ctx.res.violate("import-of-one-file-serves-the-next", case,
                                 "status 1", [rc, msgs[:300]])
             return
-        schema = ZConfig.loadSchemaFile(io.StringIO(case["xml"]))
+        if case.get("getonly"):
+            import ZConfig.loader
+            schema = ZConfig.loader.SchemaLoader(
+                GetOnlyRegistry()).loadFile(io.StringIO(case["xml"]))
+        else:
+            schema = ZConfig.loadSchemaFile(io.StringIO(case["xml"]))
         exp = expected(w, case["text"])
         if case.get("via") == "loader":
             from ZConfig.loader import ConfigLoader
